@@ -42,7 +42,14 @@ func zeroish(v any) bool {
 	case []any:
 		return len(x) == 0
 	case map[string]any:
-		return len(x) == 0
+		// a nested document all of whose members are zero (the genesis point {height 0, round 0}) decodes to the
+		// same value as a missing one
+		for _, e := range x {
+			if !zeroish(e) {
+				return false
+			}
+		}
+		return true
 	}
 	return false
 }
